@@ -134,6 +134,9 @@ def _structure(out, rfi, obs):
     ref2 = np.array([[float(std_crv(float(v))) for v in row] for row in g2])
     obs.claim('odd', not raised(v2) and np.asarray(v2).shape == g2.shape and bool(np.allclose(np.asarray(v2, dtype=float), ref2, rtol=1e-12)),
               lambda: 'std_crv on a 2-D array with mixed signs: %r, element by element %r' % (v2, ref2.tolist()))
+    v2f = call(std_crv, np.asfortranarray(g2))            # the same numbers in column-major memory order
+    obs.claim('odd', not raised(v2f) and bool(np.allclose(np.asarray(v2f, dtype=float), ref2, rtol=1e-12)),
+              lambda: 'std_crv on a column-major 2-D array: %r, element by element %r' % (v2f, ref2.tolist()))
     # an array that starts with an exact zero is converted element by element like any other
     lead0 = np.concatenate([[0.0], grid])
     v0 = call(std_crv, lead0)
@@ -186,6 +189,10 @@ def check(case, obs):
     sc_before, grid0 = _structure(out, rfi, obs)
     bm_before = np.asarray(out[1](grid0), dtype=float)
     params_before = np.array(out[2], dtype=float)
+    # what the caller does with its own arrays afterwards does not reach into the returned curve
+    if isinstance(rfi_arg, np.ndarray) and rfi_arg.flags.writeable:
+        rfi_arg *= 3.0
+        rfi_arg[0] = 1.0
     # a later, unrelated fit must not change what an earlier fit returned
     call(FlowCal.mef.fit_beads_autofluorescence, np.array([3.0, 11.0, 47.0, 190.0, 800.0]),
          np.array([900.0, 5200.0, 41000.0, 250000.0, 1.9e6]))
